@@ -52,6 +52,9 @@ CLAIMED = {
     "C16": ("Lean 4 theorems on the globals pre-check and lookup precedence + exhaustive enumeration of declaration sets x supply patterns x nesting x mode",
             "Kernel-checked: a faulty first declaration (unsupplied without default, or */+ with a non-list) fails the run with that error before any poll or graph change, in both modes; a supplied value is never replaced by a default; a default is added exactly when nothing is supplied; the pre-check leaves the caller's layers untouched; a global evaluates to its effective value whatever the interpreter state, and cannot be hidden or assigned at run time. Tie: exhaustive product of 1-2 (quick) / 3 (thorough) declarations x {none,?,*,+} x default x 8 supply kinds x direct/nested Variables x both modes: expected outcome computed from the declarations, effective values read back at every block depth (if, for, scan arm, shorthand), caller's Variables compared before/after, static rules (duplicate, hide, set) rejected at load; all against the model as well.",
             "DESIGN.md section 7, C16"),
+    "C18": ("Lean 4 proof that the tree-cursor loop of find_errors equals the declarative 'outermost flagged nodes in document order' for every tree (mutual induction over rose trees, with fuel sufficiency), first = head; + differential comparison incl. both displays and the owning variants moved across threads",
+            "Kernel-checked for every tree: the cursor machine (flags, goto_first_child / next_sibling / parent, did_visit_children) returns exactly the ERROR/MISSING nodes not inside another reported node, in document order, within 2|t|+1 iterations (C18_walk_eq_outermost); first-error mode returns the head of that list (C18_first_is_head); children of a reported node are skipped; an error-free tree yields none; the plain display starts with path:line:column and the kind. Tie: Python sources with 0-6 injected faults: ParseError::all/first vs an independent recursive walk over Node::children and vs the model; display / display_pretty text equal to the model's (Excerpt incl. column clamping); into_all / into_first queried on another thread; tree-sitter's has_error contract re-checked. The soundness of the unsafe Send/Sync impls and the lifetime transmute is memory safety and outside the model (the cross-thread run only exercises it).",
+            "DESIGN.md section 7, C18"),
 }
 
 NOT_YET = {}
